@@ -39,6 +39,8 @@ class Crate:
         self.kind = kind
         self.bodies = [Body(b, self) for b in raw["bodies"]]
         self.by_id = {b.id: b for b in self.bodies}
+        # initialisers of const / static items (not part of `bodies`: they never run at run time)
+        self.const_bodies = {b["id"]: Body(b, self) for b in raw.get("const_bodies", [])}
         self.adts = {a["path"]: a for a in raw["adts"]}
         self.impls = raw["impls"]
         self.tables = raw["hir"]["tables"]
